@@ -481,6 +481,7 @@ func runC20(ctx *Ctx) {
 		c20random(ctx, 6+ctx.R.Intn(ctx.N(18, 40)))
 	}
 	c20purity(ctx)
+	c20derived(ctx)
 	if ctx.Thorough {
 		c20race(ctx)
 	}
